@@ -436,6 +436,10 @@ Proof.
     else if d1 =? 110 then 10 :: unesc (d2 :: d3 :: rest)
     else if d1 =? 116 then 9 :: unesc (d2 :: d3 :: rest)
     else if d1 =? 114 then 13 :: unesc (d2 :: d3 :: rest)
+    else if d1 =? 97 then 7 :: unesc (d2 :: d3 :: rest)
+    else if d1 =? 98 then 8 :: unesc (d2 :: d3 :: rest)
+    else if d1 =? 118 then 11 :: unesc (d2 :: d3 :: rest)
+    else if d1 =? 102 then 12 :: unesc (d2 :: d3 :: rest)
     else if is_digit d1 then
       if is_oct d1 then
         if is_oct d2 then
@@ -448,16 +452,17 @@ Proof.
   if_cases; try lia. reflexivity.
 Qed.
 
-Lemma unesc_esc1 b rest : b <= 255 -> is_abfv b = false ->
-  unesc (esc1 true b ++ rest) = b :: unesc rest.
+Lemma unesc_esc1 b rest : b <= 255 -> unesc (esc1 true b ++ rest) = b :: unesc rest.
 Proof.
-  intros Hb Hk. unfold is_abfv in Hk. unfold esc1.
+  intros Hb. unfold esc1.
   destruct (must_quote true b) eqn:Q.
   - unfold esc_letter.
-    destruct (b =? 7) eqn:E7; [lia|]. destruct (b =? 8) eqn:E8; [lia|].
+    destruct (b =? 7) eqn:E7; [apply N.eqb_eq in E7; subst; reflexivity|].
+    destruct (b =? 8) eqn:E8; [apply N.eqb_eq in E8; subst; reflexivity|].
     destruct (b =? 9) eqn:E9; [apply N.eqb_eq in E9; subst; reflexivity|].
     destruct (b =? 10) eqn:E10; [apply N.eqb_eq in E10; subst; reflexivity|].
-    destruct (b =? 11) eqn:E11; [lia|]. destruct (b =? 12) eqn:E12; [lia|].
+    destruct (b =? 11) eqn:E11; [apply N.eqb_eq in E11; subst; reflexivity|].
+    destruct (b =? 12) eqn:E12; [apply N.eqb_eq in E12; subst; reflexivity|].
     destruct (b =? 13) eqn:E13; [apply N.eqb_eq in E13; subst; reflexivity|].
     destruct (b =? 34) eqn:E34; [apply N.eqb_eq in E34; subst; reflexivity|].
     destruct (b =? 92) eqn:E92; [apply N.eqb_eq in E92; subst; reflexivity|].
@@ -468,20 +473,12 @@ Proof.
   - cbn [app]. unfold must_quote in Q. rewrite unesc_plain by lia. rewrite enc1_ascii by lia. reflexivity.
 Qed.
 
-Lemma unesc_esc p rest : forallb is_byte p = true -> k3_path p = false ->
-  unesc (esc true p ++ rest) = p ++ unesc rest.
+Lemma unesc_esc p rest : forallb is_byte p = true -> unesc (esc true p ++ rest) = p ++ unesc rest.
 Proof.
-  induction p as [|b p IH]; intros Hb Hk; [reflexivity|].
+  induction p as [|b p IH]; intros Hb; [reflexivity|].
   cbn [forallb] in Hb. apply andb_true_iff in Hb as [Hb1 Hb2]. unfold is_byte in Hb1.
-  unfold k3_path in *. cbn [existsb] in Hk. apply orb_false_iff in Hk as [Hk1 Hk2].
   unfold esc in *. cbn [flat_map]. rewrite <- app_assoc.
-  rewrite unesc_esc1 by (lia || exact Hk1). rewrite (IH Hb2 Hk2). reflexivity.
-Qed.
-
-Lemma path_ok_parts p : path_ok p = true -> forallb is_byte p = true /\ k3_path p = false.
-Proof.
-  unfold path_ok. intro H. apply andb_true_iff in H as [H1 H2].
-  split; [exact H1|]. destruct (k3_path p); [discriminate|reflexivity].
+  rewrite unesc_esc1 by lia. rewrite (IH Hb2). reflexivity.
 Qed.
 
 Lemma noquote_first_not_dq p : needs_quote true p = false -> first_is c_dq p = false.
@@ -490,33 +487,34 @@ Proof.
   apply orb_false_iff in H as [H _]. unfold must_quote in H. unfold c_dq. lia.
 Qed.
 
-Lemma unescape_quoted x : unescape_git_path (34 :: x ++ [34]) = Ok (dec (unesc x)).
+Lemma unescape_quoted x : unescape_git_path (34 :: x ++ [34]) = dec (unesc x).
 Proof.
   unfold unescape_git_path.
+  destruct (x ++ [34]) as [|n l] eqn:E; [destruct x; discriminate|].
+  rewrite <- E.
   change (first_is c_dq (34 :: x ++ [34])) with true.
   change (34 :: x ++ [34]) with ((34 :: x) ++ [34]) at 1. rewrite last_is_snoc.
-  change (34 =? c_dq) with true. cbn [andb].
-  destruct (x ++ [34]) eqn:E; [destruct x; discriminate|].
-  rewrite <- E. cbn [tl]. rewrite removelast_last. reflexivity.
+  change (34 =? c_dq) with true. cbn [andb tl]. rewrite removelast_last. reflexivity.
 Qed.
 
-Lemma unescape_quote p : path_ok p = true ->
-  unescape_git_path (quote_c_style true p) = Ok (dec p).
+Lemma unescape_unquoted p : first_is c_dq p = false -> unescape_git_path p = p.
 Proof.
-  intro H. destruct (path_ok_parts p H) as [Hb Hk]. unfold quote_c_style.
+  intro H. unfold unescape_git_path. destruct p as [|a [|b p]]; try reflexivity.
+  rewrite H. reflexivity.
+Qed.
+
+Lemma unescape_quote p : path_ok p = true -> unescape_git_path (quote_c_style true p) = dec p.
+Proof.
+  unfold path_ok. intro Hb. unfold quote_c_style.
   destruct (needs_quote true p) eqn:Q.
   - change ([34] ++ esc true p ++ [34]) with (34 :: esc true p ++ [34]).
     rewrite unescape_quoted. rewrite <- (app_nil_r (esc true p)).
-    rewrite (unesc_esc p [] Hb Hk). cbn [unesc]. rewrite app_nil_r. reflexivity.
-  - unfold unescape_git_path. rewrite (noquote_first_not_dq p Q). cbn [andb].
+    rewrite (unesc_esc p [] Hb). cbn [unesc]. rewrite app_nil_r. reflexivity.
+  - rewrite (unescape_unquoted p (noquote_first_not_dq p Q)).
     rewrite (dec_all_ascii p (noquote_ascii p Q)). reflexivity.
 Qed.
 
-Lemma unescape_quote_refuted :
-  exists p, forallb is_byte p = true /\ unescape_git_path (quote_c_style true p) <> Ok (dec p).
-Proof. exists [7]. split; [reflexivity|]. vm_compute. discriminate. Qed.
-
-Lemma unescape_panics : unescape_git_path [34] = Panic.
+Lemma unescape_lone_quote : unescape_git_path [34] = [34].
 Proof. reflexivity. Qed.
 
 (* core.quotePath does not matter for ASCII paths *)
@@ -594,14 +592,19 @@ Lemma runs_cons l L st st1 st2 :
   mem c_nl l = false -> step st (pl l) = Ok st1 -> runs L st1 st2 -> runs (l :: L) st st2.
 Proof. intros H S R. apply (runs_app [l] L st st1 st2); [apply runs_one; assumption|exact R]. Qed.
 
-Lemma plus_header_some l o : plus_header l = Some o -> starts_with s_plus3 l = true.
-Proof. unfold plus_header, starts_with. destruct (strip_prefix s_plus3 l); [reflexivity|discriminate]. Qed.
-
-Lemma step_other st l : starts_with s_plus3 l = false -> starts_with s_atat_sp l = false -> step st l = Ok st.
+Lemma plus_header_nonplus l : first_is c_plus l = false -> plus_header l = None.
 Proof.
-  intros H1 H2. unfold step. destruct (plus_header l) eqn:E.
-  - apply plus_header_some in E. congruence.
-  - rewrite H2. reflexivity.
+  unfold plus_header, s_plus3. destruct l as [|c l]; [reflexivity|]. cbn [first_is strip_prefix].
+  unfold c_plus. intro H. rewrite H. reflexivity.
+Qed.
+
+Lemma step_nonplus st l : first_is c_plus l = false -> step st l = step_main st l.
+Proof. intro H. unfold step. destruct (st_pend st); [reflexivity|]. rewrite H. reflexivity. Qed.
+
+Lemma step_other st l : first_is c_plus l = false -> starts_with s_atat_sp l = false -> step st l = Ok st.
+Proof.
+  intros H1 H2. rewrite step_nonplus by exact H1. unfold step_main.
+  rewrite plus_header_nonplus by exact H1. rewrite H2. reflexivity.
 Qed.
 
 Lemma pl_head c l : c < 128 -> pl (c :: l) = [] \/ exists t, pl (c :: l) = c :: t.
@@ -610,8 +613,8 @@ Proof. intro H. unfold pl. rewrite dec_ascii by exact H. apply strip_cr_head. Qe
 Lemma step_skip_pl st c l : c < 128 -> c <> 43 -> c <> 64 -> step st (pl (c :: l)) = Ok st.
 Proof.
   intros H1 H2 H3. destruct (pl_head c l H1) as [E|[t E]]; rewrite E.
-  - reflexivity.
-  - apply step_other; unfold starts_with, s_plus3, s_atat_sp; cbn [strip_prefix].
+  - apply step_other; reflexivity.
+  - apply step_other; unfold starts_with, s_atat_sp, c_plus; cbn [first_is strip_prefix].
     + destruct (c =? 43) eqn:X; [lia|reflexivity].
     + destruct (c =? 64) eqn:X; [lia|reflexivity].
 Qed.
@@ -619,13 +622,19 @@ Qed.
 Lemma runs_skip c l st : c < 128 -> c <> 43 -> c <> 64 -> mem c_nl (c :: l) = false -> runs [c :: l] st st.
 Proof. intros. apply runs_one; [assumption|apply step_skip_pl; assumption]. Qed.
 
-Lemma step_added st x : starts_with s_pp_sp x = false -> step st (pl (43 :: x)) = Ok st.
+Lemma strip_cr_noncr c s : c <> c_cr -> exists t, strip_cr (c :: s) = c :: t.
 Proof.
-  intro H. apply step_other.
-  - destruct (starts_with s_plus3 (pl (43 :: x))) eqn:E; [|reflexivity].
-    unfold pl in E. apply starts_with_strip_cr in E. apply starts_with_dec in E; [|reflexivity].
-    change (starts_with s_plus3 (43 :: x)) with (starts_with s_pp_sp x) in E. congruence.
-  - destruct (pl_head 43 x ltac:(lia)) as [E|[t E]]; rewrite E; reflexivity.
+  intro H. destruct s as [|b s].
+  - cbn [strip_cr]. destruct (c =? c_cr) eqn:E; [apply N.eqb_eq in E; contradiction|eauto].
+  - exists (strip_cr (b :: s)). reflexivity.
+Qed.
+
+(* an added body line is consumed by the pending counter, whatever its text *)
+Lemma step_added c a i n x :
+  step (mkS c a i (S n)) (pl (43 :: x)) = Ok (mkS c a i n).
+Proof.
+  unfold pl. rewrite dec_ascii by lia.
+  destruct (strip_cr_noncr 43 (dec x) ltac:(unfold c_cr; lia)) as [t E]. rewrite E. reflexivity.
 Qed.
 
 Lemma mem_cons_false c x l : mem c (x :: l) = false <-> (x =? c) = false /\ mem c l = false.
@@ -641,15 +650,14 @@ Proof.
   - apply IH. exact H2.
 Qed.
 
-Lemma runs_new_lines ls st : forallb no_lf ls = true -> existsb (starts_with s_pp_sp) ls = false ->
-  runs (map (fun l => c_plus :: l) ls) st st.
+Lemma runs_new_lines ls c a i : forallb no_lf ls = true ->
+  runs (map (fun l => c_plus :: l) ls) (mkS c a i (length ls)) (mkS c a i 0).
 Proof.
-  induction ls as [|l ls IH]; intros H K; [apply runs_nil|].
-  cbn [forallb] in H. apply andb_true_iff in H as [H1 H2].
-  cbn [existsb] in K. apply orb_false_iff in K as [K1 K2]. cbn [map].
-  apply (runs_cons _ _ st st st).
+  induction ls as [|l ls IH]; intros H; [apply runs_nil|].
+  cbn [forallb] in H. apply andb_true_iff in H as [H1 H2]. cbn [map length].
+  eapply runs_cons.
   - apply mem_cons_false. split; [reflexivity|]. unfold no_lf in H1. destruct (mem c_nl l); [discriminate|reflexivity].
-  - apply step_added. exact K1.
+  - apply step_added.
   - apply IH; assumption.
 Qed.
 
@@ -721,54 +729,48 @@ Proof.
   apply last_is_mem in E. rewrite M in E by (right; reflexivity). discriminate.
 Qed.
 
-Lemma is_ws_printable c : printable c = true -> c <> 32 -> is_ws c = false.
-Proof. unfold printable, is_ws. lia. Qed.
-
-Lemma trim_end_label_unquoted p : forallb printable p = true -> last_is c_sp p = false ->
-  forall tab, tab = [] \/ tab = [c_tab] -> trim_end (s_b ++ p ++ tab) = s_b ++ p.
+Lemma trim_end_head c s : is_ws c = false -> exists t, trim_end (c :: s) = c :: t.
 Proof.
-  intros Hp Hl tab Ht.
-  assert (T : trim_end (s_b ++ p) = s_b ++ p).
-  { apply trim_end_last_nonws. rewrite rev_app_distr.
-    destruct (rev p) as [|c r] eqn:E; [reflexivity|]. cbn [app].
-    apply is_ws_printable.
-    - rewrite forallb_forall in Hp. apply Hp. apply in_rev. rewrite E. left. reflexivity.
-    - unfold last_is in Hl. rewrite E in Hl. unfold c_sp in Hl. lia. }
-  destruct Ht as [-> | ->]; [rewrite app_nil_r; exact T|].
-  rewrite app_assoc, trim_end_app_ws by reflexivity. exact T.
+  intro H. cbn [trim_end]. destruct (trim_end s); [rewrite H|]; eauto.
 Qed.
 
-Lemma plus_line_live p : forallb is_byte p = true -> k2_path p = false -> k3_path p = false ->
+Lemma strip_tab_label lbl : forallb printable lbl = true -> strip_tab (lbl ++ label_tab lbl) = lbl.
+Proof.
+  intro P. unfold strip_tab. destruct (label_tab_cases lbl) as [-> | ->].
+  - rewrite app_nil_r. destruct (last_is c_tab lbl) eqn:E; [|reflexivity].
+    apply last_is_mem in E. rewrite (printable_nomem c_tab lbl) in E by (unfold c_tab; lia || exact P).
+    discriminate.
+  - rewrite last_is_snoc. change (c_tab =? c_tab) with true. cbv iota. apply removelast_last.
+Qed.
+
+Lemma plus_line_live p : forallb is_byte p = true ->
   let lbl := quote_two true s_b p in
   mem c_nl (s_plus3 ++ lbl ++ label_tab lbl) = false /\
-  plus_header (pl (s_plus3 ++ lbl ++ label_tab lbl)) = Some (Ok (Some (dec p))).
+  plus_header (pl (s_plus3 ++ lbl ++ label_tab lbl)) = Some (Some (dec p)).
 Proof.
-  intros Hb K2 K3 lbl.
+  intros Hb lbl.
   assert (Pl : forallb printable lbl = true) by (apply quote_two_printable; reflexivity).
   destruct (pl_label s_plus3 lbl eq_refl Pl) as [M P]. split; [exact M|].
   rewrite P by discriminate. unfold plus_header. rewrite strip_prefix_app.
+  unfold normalize_diff_path_token. rewrite (strip_tab_label lbl Pl).
   unfold lbl in *. rewrite quote_two_shape in * by reflexivity.
   destruct (needs_quote true p) eqn:Q.
   - (* quoted *)
     set (x := s_b ++ esc true p) in *.
-    assert (T : trim_end (((34 :: x) ++ [34]) ++ label_tab ((34 :: x) ++ [34])) = (34 :: x) ++ [34]).
-    { destruct (label_tab_cases ((34 :: x) ++ [34])) as [-> | ->].
-      - rewrite app_nil_r. apply trim_end_app_nonws; reflexivity.
-      - rewrite trim_end_app_ws by reflexivity. apply trim_end_app_nonws; reflexivity. }
-    rewrite T. change (str_eqb ((34 :: x) ++ [34]) s_devnull) with false. cbv iota.
-    unfold normalize_diff_path_token. rewrite T.
+    destruct (trim_end_head 34 ((x ++ [34]) ++ label_tab ((34 :: x) ++ [34])) eq_refl) as [t T].
+    change (((34 :: x) ++ [34]) ++ label_tab ((34 :: x) ++ [34]))
+      with (34 :: (x ++ [34]) ++ label_tab ((34 :: x) ++ [34])).
+    rewrite T. change (str_eqb (34 :: t) s_devnull) with false. cbv iota.
     change ((34 :: x) ++ [34]) with (34 :: x ++ [34]). rewrite unescape_quoted.
     unfold x. rewrite unesc_ascii_app by reflexivity.
-    rewrite <- (app_nil_r (esc true p)), (unesc_esc p [] Hb K3). cbn [unesc]. rewrite app_nil_r.
+    rewrite <- (app_nil_r (esc true p)), (unesc_esc p [] Hb). cbn [unesc]. rewrite app_nil_r.
     rewrite dec_ascii_app by reflexivity. reflexivity.
   - (* unquoted *)
-    unfold k2_path in K2. rewrite Q in K2. cbn [negb andb] in K2.
     pose proof (noquote_printable p Q) as Pp.
-    assert (T : trim_end ((s_b ++ p) ++ label_tab (s_b ++ p)) = s_b ++ p).
-    { rewrite <- app_assoc. apply trim_end_label_unquoted; [exact Pp|exact K2|apply label_tab_cases]. }
-    rewrite T. change (str_eqb (s_b ++ p) s_devnull) with false. cbv iota.
-    unfold normalize_diff_path_token. rewrite T.
-    change (unescape_git_path (s_b ++ p)) with (Ok (s_b ++ p)).
+    destruct (trim_end_head 98 ((47 :: p) ++ label_tab (s_b ++ p)) eq_refl) as [t T].
+    change ((s_b ++ p) ++ label_tab (s_b ++ p)) with (98 :: (47 :: p) ++ label_tab (s_b ++ p)).
+    rewrite T. change (str_eqb (98 :: t) s_devnull) with false. cbv iota.
+    rewrite unescape_unquoted by reflexivity.
     rewrite (dec_all_ascii p (printable_ascii p Pp)). reflexivity.
 Qed.
 
@@ -796,13 +798,6 @@ Proof.
   unfold hunk_header, hh_text. rewrite <- !app_assoc. destruct (h_sec h); reflexivity.
 Qed.
 
-Lemma strip_cr_noncr c s : c <> c_cr -> exists t, strip_cr (c :: s) = c :: t.
-Proof.
-  intro H. destruct s as [|b s].
-  - cbn [strip_cr]. destruct (c =? c_cr) eqn:E; [apply N.eqb_eq in E; contradiction|eauto].
-  - exists (strip_cr (b :: s)). reflexivity.
-Qed.
-
 Lemma pl_hunk_header h : no_lf (h_sec h) = true ->
   mem c_nl (hunk_header h) = false /\
   exists T', pl (hunk_header h)
@@ -827,26 +822,17 @@ Proof.
     exists t. rewrite <- app_assoc. reflexivity.
 Qed.
 
-Lemma plus_header_head c l : c <> 43 -> plus_header (c :: l) = None.
-Proof.
-  intro H. unfold plus_header, s_plus3. cbn [strip_prefix]. destruct (c =? 43) eqn:E; [lia|reflexivity].
-Qed.
-
-Lemma step_hunk_line k a i l res : (exists r, l = 64 :: 64 :: 32 :: r) ->
+Lemma step_hunk_line c a i p l res : (exists r, l = 64 :: 64 :: 32 :: r) ->
   parse_hunk_header l = Ok (Some res) ->
-  step (mkS (Some k) a i) l
-  = Ok (mkS (Some k) (upd k (fst res) a) (if snd res then upd k (fst res) i else i)).
+  step (mkS c a i p) l
+  = Ok (mkS c (match c with Some k => upd k (fst res) a | None => a end)
+              (match c with Some k => if snd res then upd k (fst res) i else i | None => i end)
+              (length (fst res))).
 Proof.
-  intros [r ->] H. unfold step. rewrite plus_header_head by lia.
+  intros [r ->] H. rewrite step_nonplus by reflexivity. unfold step_main.
+  rewrite plus_header_nonplus by reflexivity.
   change (starts_with s_atat_sp (64 :: 64 :: 32 :: r)) with true. cbn [st_cur st_all st_ins].
-  rewrite H. destruct res. reflexivity.
-Qed.
-
-Lemma step_hunk_line_none a i l : (exists r, l = 64 :: 64 :: 32 :: r) ->
-  step (mkS None a i) l = Ok (mkS None a i).
-Proof.
-  intros [r ->]. unfold step. rewrite plus_header_head by lia.
-  change (starts_with s_atat_sp (64 :: 64 :: 32 :: r)) with true. reflexivity.
+  rewrite H. destruct res. destruct c; reflexivity.
 Qed.
 
 Lemma hh_text_head os oc ns nc T : exists r, hh_text os oc ns nc ++ T = 64 :: 64 :: 32 :: r.
@@ -866,8 +852,6 @@ Proof.
     cbn [length]. destruct (N.of_nat (S (length o)) =? 0) eqn:E2; [lia|reflexivity].
 Qed.
 
-Definition hunk_k1 (h : hunk) : bool := existsb (starts_with s_pp_sp) (h_new h).
-
 Lemma hunk_wf_parts h : hunk_wf h = true ->
   forallb no_lf (h_old h) = true /\ forallb no_lf (h_new h) = true /\ no_lf (h_sec h) = true /\
   count_of (h_old h) < two31 /\ h_ns h < two31.
@@ -876,76 +860,74 @@ Proof.
   repeat split; try assumption; lia.
 Qed.
 
-Lemma hunk_body_runs h st : hunk_wf h = true -> hunk_k1 h = false ->
+Lemma iota_length n : forall s, length (iota s n) = n.
+Proof. induction n as [|n IH]; intro s; [reflexivity|]. cbn [iota length]. rewrite IH. reflexivity. Qed.
+
+Lemma hunk_body_runs h c a i : hunk_wf h = true ->
   runs (map (fun l => c_dash :: l) (h_old h) ++ (if h_old_nonl h then [s_nonl] else [])
-        ++ map (fun l => c_plus :: l) (h_new h) ++ (if h_new_nonl h then [s_nonl] else [])) st st.
+        ++ map (fun l => c_plus :: l) (h_new h) ++ (if h_new_nonl h then [s_nonl] else []))
+       (mkS c a i (length (h_new h))) (mkS c a i 0).
 Proof.
-  intros W K. destruct (hunk_wf_parts h W) as (W1 & W2 & _).
-  apply (runs_app _ _ st st st); [apply runs_old_lines; exact W1|].
-  apply (runs_app _ _ st st st); [apply runs_nonl|].
-  apply (runs_app _ _ st st st); [apply runs_new_lines; assumption|apply runs_nonl].
+  intros W. destruct (hunk_wf_parts h W) as (W1 & W2 & _).
+  eapply runs_app; [apply runs_old_lines; exact W1|].
+  eapply runs_app; [apply runs_nonl|].
+  eapply runs_app; [apply runs_new_lines; assumption|apply runs_nonl].
 Qed.
 
-Lemma hunk_runs k h a i : hunk_wf h = true -> hunk_k1 h = false ->
+Definition hunk_all (c : option str) (h : hunk) (a : amap) : amap :=
+  match c with Some k => upd k (new_range h) a | None => a end.
+Definition hunk_ins (c : option str) (h : hunk) (i : amap) : amap :=
+  match c with Some k => if is_insertion h then upd k (new_range h) i else i | None => i end.
+
+Lemma hunk_runs c h a i : hunk_wf h = true ->
   h_ns h + count_of (h_new h) <= u32_max ->
-  runs (hunk_lines h) (mkS (Some k) a i)
-       (mkS (Some k) (upd k (new_range h) a) (if is_insertion h then upd k (new_range h) i else i)).
+  runs (hunk_lines h) (mkS c a i 0) (mkS c (hunk_all c h a) (hunk_ins c h i) 0).
 Proof.
-  intros W K B. destruct (hunk_wf_parts h W) as (_ & _ & W3 & W4 & _).
+  intros W B. destruct (hunk_wf_parts h W) as (_ & _ & W3 & W4 & _).
   destruct (pl_hunk_header h W3) as [M [T' P]].
-  unfold hunk_lines. eapply runs_cons; [exact M| |apply hunk_body_runs; assumption].
+  unfold hunk_lines. eapply runs_cons; [exact M| |apply hunk_body_runs; exact W].
   rewrite P.
   erewrite step_hunk_line; [| apply hh_text_head |
     apply hunk_header_parse; [unfold two31, u32_max in *; lia|exact B]].
-  pose proof (res_spec h) as R. cbv zeta in R. rewrite R. reflexivity.
+  pose proof (res_spec h) as R. cbv zeta in R. rewrite R. cbn [fst snd].
+  unfold new_range at 3. rewrite iota_length. reflexivity.
 Qed.
 
-Lemma hunk_runs_none h a i : hunk_wf h = true -> hunk_k1 h = false ->
-  runs (hunk_lines h) (mkS None a i) (mkS None a i).
-Proof.
-  intros W K. destruct (hunk_wf_parts h W) as (_ & _ & W3 & _).
-  destruct (pl_hunk_header h W3) as [M [T' P]].
-  unfold hunk_lines. eapply runs_cons; [exact M| |apply hunk_body_runs; assumption].
-  rewrite P. apply step_hunk_line_none. apply hh_text_head.
-Qed.
+Definition hunks_all (c : option str) (hs : list hunk) (a : amap) : amap :=
+  match c with Some k => upd_all k hs a | None => a end.
+Definition hunks_ins (c : option str) (hs : list hunk) (i : amap) : amap :=
+  match c with Some k => upd_ins k hs i | None => i end.
 
-Lemma hunks_runs k hs : forall lo a i,
-  forallb hunk_wf hs = true -> hunks_sorted lo hs = true -> existsb hunk_k1 hs = false ->
-  runs (flat_map hunk_lines hs) (mkS (Some k) a i) (mkS (Some k) (upd_all k hs a) (upd_ins k hs i)).
+Lemma hunks_runs c hs : forall lo a i,
+  forallb hunk_wf hs = true -> hunks_sorted lo hs = true ->
+  runs (flat_map hunk_lines hs) (mkS c a i 0) (mkS c (hunks_all c hs a) (hunks_ins c hs i) 0).
 Proof.
-  induction hs as [|h hs IH]; intros lo a i W S K; [apply runs_nil|].
+  induction hs as [|h hs IH]; intros lo a i W S.
+  { destruct c; apply runs_nil. }
   cbn [forallb] in W. apply andb_true_iff in W as [W1 W2].
-  cbn [existsb] in K. apply orb_false_iff in K as [K1 K2].
-  cbn [flat_map]. unfold upd_all, upd_ins. cbn [fold_left].
+  cbn [flat_map].
   destruct (hunk_wf_parts h W1) as (_ & _ & _ & _ & Wn).
   cbn [hunks_sorted] in S.
-  eapply runs_app.
-  - apply hunk_runs; [exact W1|exact K1|].
-    unfold count_of in *. destruct (h_new h) as [|x n].
-    + cbn [length]. unfold two31, u32_max in *. lia.
-    + apply andb_true_iff in S as [S _]. apply andb_true_iff in S as [_ S]. unfold two31, u32_max in *. lia.
-  - destruct (h_new h) as [|x n] eqn:E.
-    + eapply IH; eassumption.
-    + apply andb_true_iff in S as [_ S]. eapply IH; eassumption.
-Qed.
-
-Lemma hunks_runs_none hs : forall a i,
-  forallb hunk_wf hs = true -> existsb hunk_k1 hs = false ->
-  runs (flat_map hunk_lines hs) (mkS None a i) (mkS None a i).
-Proof.
-  induction hs as [|h hs IH]; intros a i W K; [apply runs_nil|].
-  cbn [forallb] in W. apply andb_true_iff in W as [W1 W2].
-  cbn [existsb] in K. apply orb_false_iff in K as [K1 K2].
-  cbn [flat_map]. eapply runs_app; [apply hunk_runs_none; assumption|apply IH; assumption].
+  assert (B : h_ns h + count_of (h_new h) <= u32_max).
+  { unfold count_of in *. destruct (h_new h) as [|x n].
+    - cbn [length]. unfold two31, u32_max in *. lia.
+    - apply andb_true_iff in S as [S _]. apply andb_true_iff in S as [_ S]. unfold two31, u32_max in *. lia. }
+  assert (S' : exists lo', hunks_sorted lo' hs = true).
+  { destruct (h_new h); [eauto|]. apply andb_true_iff in S as [_ S]. eauto. }
+  destruct S' as [lo' S'].
+  eapply runs_app; [apply hunk_runs; assumption|].
+  replace (hunks_all c (h :: hs) a) with (hunks_all c hs (hunk_all c h a)) by (destruct c; reflexivity).
+  replace (hunks_ins c (h :: hs) i) with (hunks_ins c hs (hunk_ins c h i)) by (destruct c; reflexivity).
+  eapply IH; eassumption.
 Qed.
 
 (* ---- one file ---- *)
 
 Definition file_post (f : file_diff) (st : sstate) : sstate :=
   if has_hunks f then
-    if fd_del f then mkS None (st_all st) (st_ins st)
+    if fd_del f then mkS None (st_all st) (st_ins st) 0
     else mkS (Some (key f)) (upd_all (key f) (fd_hunks f) (st_all st))
-                            (upd_ins (key f) (fd_hunks f) (st_ins st))
+                            (upd_ins (key f) (fd_hunks f) (st_ins st)) 0
   else st.
 
 Lemma runs_skip_app pre X st :
@@ -963,15 +945,10 @@ Proof.
   unfold file_wf. intro H. repeat (apply andb_true_iff in H as [H ?]). repeat split; assumption.
 Qed.
 
-Lemma k1_file_hunks f : k1_file f = existsb hunk_k1 (fd_hunks f).
-Proof. reflexivity. Qed.
-
-Lemma file_runs f st : file_wf f = true -> k1_file f = false ->
-  (live f = true -> k2_path (fd_path f) = false /\ k3_path (fd_path f) = false) ->
+Lemma file_runs f st : file_wf f = true -> st_pend st = 0%nat ->
   runs (file_lines true f) st (file_post f st).
 Proof.
-  intros W K1 KL. destruct (file_wf_parts f W) as (Wb & Wm & Wo & Wn & Wh & Ws).
-  rewrite k1_file_hunks in K1.
+  intros W P0. destruct (file_wf_parts f W) as (Wb & Wm & Wo & Wn & Wh & Ws).
   set (la := quote_two true s_a (fd_path f)). set (lb := quote_two true s_b (fd_path f)).
   assert (Pa : forallb printable la = true) by (apply quote_two_printable; reflexivity).
   assert (Pb : forallb printable lb = true) by (apply quote_two_printable; reflexivity).
@@ -1000,24 +977,26 @@ Proof.
   rewrite <- EH in *.
   set (lold := if fd_new f then s_devnull else la).
   assert (Po : forallb printable lold = true) by (unfold lold; destruct (fd_new f); [reflexivity|exact Pa]).
-  apply (runs_app [_; _] _ st (mkS (if fd_del f then None else Some (key f)) (st_all st) (st_ins st))).
+  destruct st as [c0 a0 i0 p0]. cbn [st_pend st_all st_ins] in *. subst p0.
+  apply (runs_app [_; _] _ _ (mkS (if fd_del f then None else Some (key f)) a0 i0 0)).
   - eapply runs_cons.
     + apply (pl_label s_minus3 lold eq_refl Po).
     + destruct (pl_label s_minus3 lold eq_refl Po) as [_ P]. rewrite P by discriminate.
       apply step_other; reflexivity.
     + destruct (fd_del f) eqn:ED.
       * apply runs_one; [reflexivity|].
-        unfold step.
-        change (plus_header (pl (s_plus3 ++ s_devnull ++ label_tab s_devnull))) with (Some (Ok (@None str))).
+        unfold step, step_main. cbn [st_pend].
+        change (plus_header (pl (s_plus3 ++ s_devnull ++ label_tab s_devnull))) with (Some (@None str)).
         reflexivity.
-      * assert (L : live f = true) by (unfold live, has_hunks; rewrite ED, EH; reflexivity).
-        destruct (KL L) as [K2 K3].
-        destruct (plus_line_live (fd_path f) Wb K2 K3) as [M P]. cbv zeta in M, P. fold lb in M, P.
-        apply runs_one; [exact M|]. unfold step. rewrite P. reflexivity.
+      * destruct (plus_line_live (fd_path f) Wb) as [M P]. cbv zeta in M, P. fold lb in M, P.
+        apply runs_one; [exact M|]. unfold step, step_main. cbn [st_pend]. rewrite P. reflexivity.
   - destruct (fd_del f).
-    + apply hunks_runs_none; assumption.
-    + eapply hunks_runs; eassumption.
+    + apply (hunks_runs None (fd_hunks f) 0 a0 i0 Wh Ws).
+    + apply (hunks_runs (Some (key f)) (fd_hunks f) 0 a0 i0 Wh Ws).
 Qed.
+
+Lemma file_post_pend f st : st_pend st = 0%nat -> st_pend (file_post f st) = 0%nat.
+Proof. intro H. unfold file_post. destruct (has_hunks f); [destruct (fd_del f); reflexivity|exact H]. Qed.
 
 (* ================================================================== G. the maps *)
 
@@ -1087,15 +1066,13 @@ Qed.
 
 Definition run_doc (d : list file_diff) (st : sstate) : sstate := fold_left (fun s f => file_post f s) d st.
 
-Lemma doc_runs d : forall st,
-  (forall f, In f d -> file_wf f = true /\ k1_file f = false /\
-     (live f = true -> k2_path (fd_path f) = false /\ k3_path (fd_path f) = false)) ->
+Lemma doc_runs d : forall st, (forall f, In f d -> file_wf f = true) -> st_pend st = 0%nat ->
   runs (render_lines true d) st (run_doc d st).
 Proof.
-  induction d as [|f d IH]; intros st H; [apply runs_nil|].
+  induction d as [|f d IH]; intros st H P0; [apply runs_nil|].
   unfold render_lines, run_doc in *. cbn [flat_map fold_left].
-  destruct (H f (or_introl eq_refl)) as (W & K1 & KL).
-  eapply runs_app; [apply file_runs; assumption|]. apply IH. intros g G. apply H. right. exact G.
+  eapply runs_app; [apply file_runs; [apply H; left; reflexivity|exact P0]|].
+  apply IH; [intros g G; apply H; right; exact G|apply file_post_pend; exact P0].
 Qed.
 
 Lemma run_doc_cons f d st : run_doc (f :: d) st = run_doc d (file_post f st).
@@ -1121,7 +1098,7 @@ Qed.
 
 Lemma file_post_live f st : live f = true ->
   file_post f st = mkS (Some (key f)) (upd_all (key f) (fd_hunks f) (st_all st))
-                       (upd_ins (key f) (fd_hunks f) (st_ins st)) /\ fd_hunks f <> [].
+                       (upd_ins (key f) (fd_hunks f) (st_ins st)) 0 /\ fd_hunks f <> [].
 Proof.
   unfold live, file_post, has_hunks. destruct (fd_hunks f); [rewrite andb_false_r; discriminate|].
   destruct (fd_del f); [discriminate|]. split; [reflexivity|discriminate].
@@ -1260,31 +1237,16 @@ Qed.
 
 (* ================================================================== H. the theorems *)
 
-Lemma known_parts d : Known_C01_fmt d = false ->
-  forall f, In f d -> k1_file f = false /\
-    (live f = true -> k2_path (fd_path f) = false /\ k3_path (fd_path f) = false).
-Proof.
-  unfold Known_C01_fmt. intros H f F. apply orb_false_iff in H as [H1 H2]. split.
-  - destruct (k1_file f) eqn:E; [|reflexivity].
-    assert (existsb k1_file d = true) by (apply existsb_exists; eauto). congruence.
-  - intro L. destruct (k2_path (fd_path f) || k3_path (fd_path f)) eqn:E.
-    + assert (existsb (fun f => live f && (k2_path (fd_path f) || k3_path (fd_path f))) d = true).
-      { apply existsb_exists. exists f. split; [exact F|]. rewrite L, E. reflexivity. }
-      congruence.
-    + apply orb_false_iff in E. exact E.
-Qed.
-
-Lemma scan_render d : wf_doc d = true -> Known_C01_fmt d = false ->
+Lemma scan_render d : wf_doc d = true ->
   scan (dec (render true d)) = Ok (added_lines d, insertion_lines d).
 Proof.
-  intros W K. unfold wf_doc in W. apply andb_true_iff in W as [W ND].
+  intros W. unfold wf_doc in W. apply andb_true_iff in W as [W ND].
   rewrite forallb_forall in W.
-  assert (R : runs (render_lines true d) (mkS None [] []) (run_doc d (mkS None [] []))).
-  { apply doc_runs. intros f F. destruct (known_parts d K f F) as [K1 KL].
-    split; [apply W, F|split; assumption]. }
+  assert (R : runs (render_lines true d) (mkS None [] [] 0) (run_doc d (mkS None [] [] 0))).
+  { apply doc_runs; [exact W|reflexivity]. }
   specialize (R []). rewrite app_nil_r, run_nil in R.
   unfold scan. unfold run, render in *. rewrite R.
-  destruct (run_doc_maps d (mkS None [] [])) as [A B].
+  destruct (run_doc_maps d (mkS None [] [] 0)) as [A B].
   - cbn [st_all keys map app]. apply nodup_str_NoDup. exact ND.
   - intros x X. exact X.
   - rewrite A, B. cbn [st_all st_ins app].
@@ -1293,13 +1255,12 @@ Proof.
     rewrite (canon_added d S), (canon_ins d S). reflexivity.
 Qed.
 
-Lemma parse_render_ins d : wf_doc d = true -> Known_C01_fmt d = false ->
+Lemma parse_render_ins d : wf_doc d = true ->
   parse_added_with_insertions (dec (render true d)) = Ok (added_lines d, insertion_lines d).
 Proof. apply scan_render. Qed.
 
-Lemma parse_render d : wf_doc d = true -> Known_C01_fmt d = false ->
-  parse_added (dec (render true d)) = Ok (added_lines d).
-Proof. intros W K. unfold parse_added. rewrite (scan_render d W K). reflexivity. Qed.
+Lemma parse_render d : wf_doc d = true -> parse_added (dec (render true d)) = Ok (added_lines d).
+Proof. intros W. unfold parse_added. rewrite (scan_render d W). reflexivity. Qed.
 
 (* ================================================================== I. UTF-8 round trip *)
 
@@ -1329,29 +1290,20 @@ Qed.
 
 (* ================================================================== J. witnesses *)
 
-Lemma wit_k1_refutes :
-  wf_doc wit_k1 = true /\ Known_C01_fmt wit_k1 = true /\
-  parse_added (dec (render true wit_k1)) <> Ok (added_lines wit_k1).
-Proof. split; [reflexivity|]. split; [reflexivity|]. vm_compute. discriminate. Qed.
+(* the former counterexamples are regression witnesses now *)
+Lemma former_witnesses :
+  (wf_doc wit_k1 = true /\ parse_added (dec (render true wit_k1)) = Ok [(p_f, [2; 6])]) /\
+  (wf_doc wit_k2 = true /\ parse_added (dec (render true wit_k2)) = Ok [([116;114;97;105;108;32], [1])]) /\
+  (wf_doc wit_k3 = true /\ parse_added (dec (render true wit_k3)) = Ok [([98;101;108;7], [1])]) /\
+  (wf_doc wit_panic = true /\ parse_added (dec (render true wit_panic)) = Ok [(p_f, [1])]).
+Proof. repeat split; vm_compute; reflexivity. Qed.
 
-Lemma known_classes_fail :
-  parse_added (dec (render true wit_k1)) = Ok [(p_f, [2]); ([119;101;105;114;100], [6])] /\
-  added_lines wit_k1 = [(p_f, [2; 6])] /\
-  (wf_doc wit_k2 = true /\ parse_added (dec (render true wit_k2)) <> Ok (added_lines wit_k2)) /\
-  (wf_doc wit_k3 = true /\ parse_added (dec (render true wit_k3)) <> Ok (added_lines wit_k3)) /\
-  (wf_doc wit_panic = true /\ parse_added (dec (render true wit_panic)) = Panic).
-Proof.
-  split; [vm_compute; reflexivity|]. split; [vm_compute; reflexivity|].
-  split; [split; [reflexivity|vm_compute; discriminate]|].
-  split; [split; [reflexivity|vm_compute; discriminate]|].
-  split; [reflexivity|vm_compute; reflexivity].
-Qed.
-
-Lemma wit_ok_inside : wf_doc wit_ok = true /\ Known_C01_fmt wit_ok = false.
-Proof. split; reflexivity. Qed.
+Lemma wit_ok_inside : wf_doc wit_ok = true.
+Proof. reflexivity. Qed.
 
 Lemma wit_ok_value :
   parse_added_with_insertions (dec (render true wit_ok))
-  = Ok ([([97;32;34;92;233], [3;4;10;11]); ([97;47;98], [1;2]); ([110], [1]); ([120;32;121], [])],
-        [([97;47;98], [1;2]); ([110], [1])]).
+  = Ok ([([7;12], [1]); ([97;32;34;92;233], [3;4;10;11]); ([97;47;98], [1;2]); ([107;49], [2;3;4;11]);
+         ([110], [1]); ([116;32;32], [1]); ([120;32;121], [])],
+        [([7;12], [1]); ([97;47;98], [1;2]); ([107;49], [2;3;4]); ([110], [1]); ([116;32;32], [1])]).
 Proof. vm_compute. reflexivity. Qed.
